@@ -198,6 +198,8 @@ where
     let cv: Vec<Value> = c.iter().map(|f| serde_json::to_value(f).unwrap()).collect();
     let want = T::shape(&cv);
     ensure!(v == want, "structure", "{} serializes as {}, expected {}", T::NAME, v, want);
+    // ... and bit for bit (Value equality does not tell -0.0 from 0.0)
+    ensure!(value_bits(&v) == value_bits(&want), "structure-bits", "{} serializes as {}, expected {} (compared as bit patterns)", T::NAME, v, want);
     let back: T = match serde_json::from_value(v.clone()) {
         Ok(b) => b,
         Err(e) => return Outcome::Fail { sig: "deserialize-error", msg: format!("{}: from_value({}) failed: {}", T::NAME, v, e) },
@@ -211,6 +213,11 @@ where
     ensure!(back == T::build(&per) || c.iter().any(|f| f.f() != f.f()), "value-roundtrip-eq", "{}: value round trip gives {:?}, expected {:?}", T::NAME, back, x);
     // carrier 2: text
     let text = serde_json::to_string(&x).unwrap();
+    let text_tree: Value = serde_json::from_str(&text).unwrap();
+    let want_text_tree: Value = serde_json::from_str(&serde_json::to_string(&want).unwrap()).unwrap();
+    // (numbers narrowed to the scalar type first: the text of an f32 is its shortest decimal, not that of the widened f64)
+    let narrow = |t: &Value| -> Vec<u64> { value_bits(t).into_iter().map(|b| bits(F::of(f64::from_bits(b)))).collect() };
+    ensure!(narrow(&text_tree) == narrow(&want_text_tree), "text-bits", "{} serializes to the text {}, expected {} (numbers compared as bit patterns)", T::NAME, text, want);
     let back2: T = match serde_json::from_str(&text) {
         Ok(b) => b,
         Err(e) => return Outcome::Fail { sig: "deserialize-error", msg: format!("{}: from_str({}) failed: {}", T::NAME, text, e) },
